@@ -11,7 +11,7 @@
    started ones.  [R cs ss]: the bucket state cs represents the specification
    state ss (proofs/C24_proofs.v); it holds for a new database (R_init). *)
 From verif Require Import lib.Base model.C24_F64 model.C24_StoreSpec model.C24 model.C25
-  proofs.C24_proofs proofs.C24_more proofs.C25_proofs proofs.C25_exact.
+  proofs.C24_proofs proofs.C24_more proofs.C25_proofs proofs.C25_exact proofs.C25_sorted.
 From Coq Require Import Floats.SpecFloat.
 Open Scope N_scope.
 
@@ -104,23 +104,30 @@ Print Assumptions C25_crash_ok_exact.
 
 (* ... and it admits the behaviours of the model: whatever the kill point and
    the recovery choice, the acknowledged results and the dump of the reopened
-   bucket state are accepted.
-   Full statement (C25_crash_ok_complete): the same without the premise
-   [dirs_self_ok].  That premise says the directory listing of the reopened
-   state, as produced by the insertion sort that executes the model, is in
-   descending order; it holds whenever no score is NaN, but proving it needs
-   that binary64 "not less than" is transitive on the reachable scores, which
-   was not done (see checks/C25.md). *)
-Theorem C25_crash_ok_complete_partial : forall recovered,
+   bucket state are accepted, provided no directory score of the reopened state
+   is NaN.  (With a NaN score — reachable only through an AddDir whose factor is
+   NaN or infinite — Go's sort.Sort and the specification's listing order are
+   both unspecified and the oracle's "descending order" test has no meaning.)
+   The proof shows that the insertion sort executing the model yields a
+   descending listing: binary64 "not less than" is transitive on non-NaN values
+   (case analysis through SFcompare, proofs/C25_sorted.v). *)
+Theorem C25_crash_ok_complete : forall recovered,
   (forall tr, (returned tr <= recovered tr)%nat) ->
   (forall tr, (recovered tr <= started tr)%nat) ->
   forall cs ss h tr,
   R cs ss -> s_seq ss + N.of_nat (length h) < two63 ->
   is_prefix tr (ptrace cs h) ->
-  dirs_self_ok (spec_exec isort_desc ss (firstn (recovered tr) h)) ->
+  (forall e, In e (s_dirs (spec_exec isort_desc ss (firstn (recovered tr) h))) -> snd e <> S754_nan) ->
   crash_ok ss h (acks tr) (dump_of (dump_c (reopen recovered cs h tr))) = true.
-Proof. exact crash_ok_complete_partial. Qed.
-Print Assumptions C25_crash_ok_complete_partial.
+Proof. exact crash_ok_complete_nonan. Qed.
+Print Assumptions C25_crash_ok_complete.
+
+(* binary64 "not less than" is transitive on non-NaN values *)
+Theorem C25_not_less_transitive : forall a b c : f64,
+  a <> S754_nan -> b <> S754_nan -> c <> S754_nan ->
+  fltb a b = false -> fltb b c = false -> fltb a c = false.
+Proof. exact fltb_false_trans. Qed.
+Print Assumptions C25_not_less_transitive.
 
 (* The oracle on a whole case (rounds of kill + reopen, then operations run to
    completion) is sound for the property stated on the observations. *)
